@@ -136,6 +136,10 @@ namespace
     struct FTimer { static constexpr auto name = "c10_g_timer"; static Port<TS<Int>> compose(Wiring &w, Port<TS<Int>> ts) { return wire<NTimer>(w, ts); } };
     struct FKeyed { static constexpr auto name = "c10_g_keyed"; static Port<TS<Int>> compose(Wiring &w, NamedPort<"key", TS<Int>> key, Port<TS<Int>> ts) { return wire<NKeyed>(w, key, ts); } };
     struct FBcast { static constexpr auto name = "c10_g_bcast"; static Port<TS<Int>> compose(Wiring &w, Port<TS<Int>> ts, Port<TS<Int>> off) { return wire<NBcast>(w, ts, off); } };
+    // the element and the broadcast argument are consumed by DIFFERENT nodes of the child (each boundary input has its own consumer to be sampled at start)
+    struct NDouble { static constexpr auto name = "c10_f_double"; static void eval(In<"ts", TS<Int>> ts, Out<TS<Int>> out) { out.set(ts.value() * 2); } };
+    struct NTriple { static constexpr auto name = "c10_f_triple"; static void eval(In<"ts", TS<Int>> ts, Out<TS<Int>> out) { out.set(ts.value() * 3); } };
+    struct FSplit { static constexpr auto name = "c10_g_split"; static Port<TS<Int>> compose(Wiring &w, Port<TS<Int>> ts, Port<TS<Int>> off) { return wire<NPair>(w, wire<NDouble>(w, ts), wire<NTriple>(w, off)); } };
     struct FChain { static constexpr auto name = "c10_g_chain"; static Port<TS<Int>> compose(Wiring &w, Port<TS<Int>> ts) { return wire<NCounter>(w, wire<NStateless>(w, ts)); } };
 
     struct ChildObs : LifecycleObserver
@@ -151,6 +155,7 @@ namespace
         auto ts = wire<TsWriter>(w, Int{0});
         if constexpr (std::is_same_v<F, FKeyed>) return wire<NKeyed>(w, wire<stdlib::const_, TS<Int>>(w, Int{key}), ts);
         else if constexpr (std::is_same_v<F, FBcast>) return wire<NBcast>(w, ts, wire<TsWriter>(w, Int{1}));
+        else if constexpr (std::is_same_v<F, FSplit>) return wire<F>(w, ts, wire<TsWriter>(w, Int{1}));
         else return wire<F>(w, ts);
         (void)fn_id;
     }
@@ -198,7 +203,7 @@ namespace
             Wiring w;
             auto d = wire<DictWriter>(w);
             Port<DictI> m;
-            if constexpr (std::is_same_v<F, FBcast>) m = wire<stdlib::map_>(w, fn<F>(), d, wire<TsWriter>(w, Int{1})).template as<DictI>();
+            if constexpr (std::is_same_v<F, FBcast> || std::is_same_v<F, FSplit>) m = wire<stdlib::map_>(w, fn<F>(), d, wire<TsWriter>(w, Int{1})).template as<DictI>();
             else m = wire<stdlib::map_>(w, fn<F>(), d).template as<DictI>();
             wire<MapMirror>(w, m);
             GraphBuilder gb = std::move(w).finish();
@@ -251,7 +256,7 @@ namespace
             std::vector<std::string> bs;
             for (long c = l.start; c < static_cast<long>(bscript.size()); ++c) bs.push_back(bscript[static_cast<std::size_t>(c)]);
             // the broadcast input holds its latest earlier value when the child starts: replay it at the child's first cycle
-            if (std::is_same_v<F, FBcast>)
+            if (std::is_same_v<F, FBcast> || std::is_same_v<F, FSplit>)
             {
                 std::string held;
                 for (long c = 0; c < l.start && c < static_cast<long>(bscript.size()); ++c) if (!bscript[static_cast<std::size_t>(c)].empty()) held = bscript[static_cast<std::size_t>(c)];
@@ -491,6 +496,7 @@ namespace
         if (f == "timer") return run_fn<FTimer>(script, bscript);
         if (f == "keyed") return run_fn<FKeyed>(script, bscript);
         if (f == "bcast") return run_fn<FBcast>(script, bscript);
+        if (f == "split") return run_fn<FSplit>(script, bscript);
         if (f == "chain") return run_fn<FChain>(script, bscript);
         throw verif::HarnessError("unknown function " + f);
     }
@@ -526,6 +532,7 @@ void verif_enumerate(verif::Ctx &ctx)
         {"timer", {"s1=2", "s1=3", "s2=2", "s2=4", "s3=3", "e1", "e2"}, 1, th ? 6 : 5, {}},
         {"timer", {"s1=2", "s2=3", "s3=4", "s2=2", "e1", "e2", "e3"}, 2, th ? 4 : 3, {}},
         {"bcast", {"s1=5", "s2=6", "e1", "s1=7"}, 1, th ? 5 : 4, {"", "v1", "v2"}},
+        {"split", {"s1=5", "s2=6", "e1", "s1=7"}, 1, th ? 6 : 5, {"", "v1", "v2"}},   // broadcast may become valid AFTER the first key exists (each key samples for itself)
     };
     // two multiplexed dictionaries: every pair of per-dictionary histories
     {
@@ -577,7 +584,7 @@ void verif_enumerate(verif::Ctx &ctx)
             {
                 std::string b;
                 for (int c = 0; c < sp.cycles; ++c) b += (c ? ";" : "") + sp.balphabet[static_cast<std::size_t>(bi[static_cast<std::size_t>(c)])];
-                if (b.rfind("v", 0) == 0) bscripts.push_back(b);  // the broadcast input is valid from cycle 0 (an invalid broadcast gates every child; C03's subject)
+                if (b.rfind("v", 0) == 0 || sp.fn == "split") bscripts.push_back(b);  // the broadcast input is valid from cycle 0 (an invalid broadcast gates every child; C03's subject)
                 int p = 0;
                 while (p < sp.cycles && ++bi[static_cast<std::size_t>(p)] == static_cast<int>(sp.balphabet.size())) { bi[static_cast<std::size_t>(p)] = 0; ++p; }
                 if (p == sp.cycles) break;
